@@ -917,6 +917,9 @@ class Process(StateMachine, persistence.Savable, metaclass=ProcessStateMachineMe
     def on_terminated(self) -> None:
         """Call when a terminal state is reached."""
         super().on_terminated()
+        # Release a stepping coroutine that is blocked because the process was paused when it got terminated
+        if self._paused is not None and not self._paused.done():
+            self._paused.set_result(True)
         self.close()
 
     @super_check
